@@ -200,6 +200,18 @@ def unroll_literal_loops(tree):
 
         visit_AsyncFunctionDef = visit_FunctionDef
 
+        def visit_ListComp(self, node):
+            self.generic_visit(node)
+            # [f(k) for k in ('a', 'b')] over a literal tuple of constants -> [f('a'), f('b')]
+            if len(node.generators) == 1 and not node.generators[0].ifs and not node.generators[0].is_async \
+                    and isinstance(node.generators[0].target, ast.Name):
+                vals = literal_of(self.fn, node.generators[0].iter, self.cls)
+                if vals and all(isinstance(v, (str, int)) for v in vals):
+                    name = node.generators[0].target.id
+                    elts = [Subst(name, v).visit(copy.deepcopy(node.elt)) for v in vals]
+                    return ast.copy_location(ast.List(elts=elts, ctx=ast.Load()), node)
+            return node
+
         def visit_For(self, node):
             self.generic_visit(node)
             if any(isinstance(x, (ast.Break, ast.Continue)) for b in node.body for x in ast.walk(b)):
